@@ -94,7 +94,8 @@ def run(ctx):
         elif a != b:
             ctx.violation("the same call gives a different result in another process / after a different call history", S.small_req(s), expected=numeric(a), observed=numeric(b))
     SC.corr_sample(ctx, ss[: (30 if ctx.quick else 200)])
-    SC.nolog_agreement(ctx, ss[:: 3], k=20)     # print_debug_info in the build where it means println!
+    SC.nolog_agreement(ctx, ss[:: 3], k=20)
+    SC.rng_entry_agreement(ctx, ss[:: 4], k=8)     # print_debug_info in the build where it means println!
     # settings combinations
     sreqs, sinfo = [], []
     nset = 8 if ctx.quick else 40
@@ -120,6 +121,9 @@ def run(ctx):
             for dbg in (False, True):
                 for meta in (False, True):
                     r = dict(s["req"], debug=dbg, meta=meta)
+                    if si % 3 == 2:
+                        # a point LONGER than get_dimension() (the surplus is ignored - under every combination of the flags)
+                        r["x"] = list(r["x"]) + [f2b(0.123), f2b(0.5), f2b(0.77)]
                     if tol is not None:
                         r["tol"] = f2b(tol)
                     sreqs.append(r); sinfo.append((si, tol, dbg, meta))
